@@ -48,10 +48,10 @@ theorem mem_subscriptionsForTopic (db : DB) (topic : Nat) (u : ProcUnit) (s : Su
 /-- Exact characterisation (all databases, all notifications): a subscription row is posted iff publishing is
     configured, the notification is not stale, the row exists, its user is entitled, and it is not the
     contributor a new-contributor notification is about. -/
-theorem notified_iff (db : DB) (p : Publish) (s : Sub) :
-    s ∈ publish db p ↔
+theorem notified_iff (nc : Nat) (db : DB) (p : Publish) (s : Sub) :
+    s ∈ publish nc db p ↔
       p.configured = true ∧ stale p = false ∧ s ∈ db.subs ∧ Entitled db p.topic p.unit s.user ∧
-      ¬ (p.topic = newContributor ∧ p.contributorId = some s.user) := by
+      ¬ (p.topic = nc ∧ p.contributorId = some s.user) := by
   unfold publish
   by_cases hc : p.configured = true
   · by_cases hst : stale p = true
@@ -67,16 +67,16 @@ theorem notified_iff (db : DB) (p : Publish) (s : Sub) :
     simp [hc']
 
 /-- Sentence 1: a notification is sent only to existing subscriptions of entitled users. -/
-theorem notified_only_entitled (db : DB) (p : Publish) (s : Sub) (h : s ∈ publish db p) :
+theorem notified_only_entitled (nc : Nat) (db : DB) (p : Publish) (s : Sub) (h : s ∈ publish nc db p) :
     s ∈ db.subs ∧ Entitled db p.topic p.unit s.user :=
-  let h' := (notified_iff db p s).1 h
+  let h' := (notified_iff nc db p s).1 h
   ⟨h'.2.2.1, h'.2.2.2.1⟩
 
 /-- Sentence 3: a new-contributor notification never goes to the contributor it is about. -/
-theorem contributor_not_notified (db : DB) (p : Publish) (u : Nat)
-    (ht : p.topic = newContributor) (hc : p.contributorId = some u) : ∀ s ∈ publish db p, s.user ≠ u := by
+theorem contributor_not_notified (nc : Nat) (db : DB) (p : Publish) (u : Nat)
+    (ht : p.topic = nc) (hc : p.contributorId = some u) : ∀ s ∈ publish nc db p, s.user ≠ u := by
   intro s hs heq
-  have h := ((notified_iff db p s).1 hs).2.2.2.2
+  have h := ((notified_iff nc db p s).1 hs).2.2.2.2
   exact h ⟨ht, by rw [hc, heq]⟩
 
 /-- Every database built with the repository operations is well-formed: distinct subscription ids and one
@@ -84,9 +84,9 @@ theorem contributor_not_notified (db : DB) (p : Publish) (u : Nat)
 theorem run_wf (h : List Op) : WF (run h) := wf_foldl h DB.empty ⟨by simp [DB.empty], by simp [DB.empty]⟩
 
 /-- Sentence 2: no subscription is notified twice (by row, and by row id). -/
-theorem notified_at_most_once (db : DB) (hw : WF db) (p : Publish) :
-    (publish db p).Nodup ∧ ((publish db p).map (·.id)).Nodup := by
-  have hsub : (publish db p).Sublist db.subs := by
+theorem notified_at_most_once (nc : Nat) (db : DB) (hw : WF db) (p : Publish) :
+    (publish nc db p).Nodup ∧ ((publish nc db p).map (·.id)).Nodup := by
+  have hsub : (publish nc db p).Sublist db.subs := by
     unfold publish
     split
     · exact List.nil_sublist _
@@ -94,12 +94,12 @@ theorem notified_at_most_once (db : DB) (hw : WF db) (p : Publish) :
       · exact List.nil_sublist _
       · unfold subscriptionsForTopic
         exact List.filter_sublist.trans List.filter_sublist
-  have hid : ((publish db p).map (·.id)).Nodup := hw.1.sublist (hsub.map _)
+  have hid : ((publish nc db p).map (·.id)).Nodup := hw.1.sublist (hsub.map _)
   exact ⟨nodup_of_nodup_map _ _ hid, hid⟩
 
-theorem notified_at_most_once_reachable (h : List Op) (p : Publish) :
-    ((publish (run h) p).map (·.id)).Nodup :=
-  (notified_at_most_once (run h) (run_wf h) p).2
+theorem notified_at_most_once_reachable (nc : Nat) (h : List Op) (p : Publish) :
+    ((publish nc (run h) p).map (·.id)).Nodup :=
+  (notified_at_most_once nc (run h) (run_wf h) p).2
 
 /-- The recorded roles are well defined: in a reachable database the entitling preference row is unique. -/
 theorem entitling_row_unique (h : List Op) (p q : Pref) (hp : p ∈ (run h).prefs) (hq : q ∈ (run h).prefs)
@@ -116,6 +116,82 @@ theorem entitling_row_unique (h : List Op) (p q : Pref) (hp : p ∈ (run h).pref
     · exact absurd hu (hn.1 p hp')
     · exact ih hp' hq' hn.2
 
+/-! ### End to end: the requests that make a user a contributor
+
+`contribute nc db e c env` models the tail shared by `FromFrontend.save_method`, `request_cancel`, `request_force`,
+`excute_command` and `excute_control_button_command` together with `publish_new_contributor_notification`, which
+*constructs* the notification (topic NEW_CONTRIBUTOR, `data.contributor_id = contributor.id`) and hands it to
+`publish_message`.  Sentence 3 of the property is about this composition, not about `publish_message` alone. -/
+
+/-- A notification stamped with the current time is not stale. -/
+theorem fresh_not_stale (p : Publish) (h : p.timestamp = some (p.now * 1000)) : stale p = false := by
+  unfold stale
+  rw [h]
+  cases hn : p.now * 1000 with
+  | zero => rfl
+  | succ k =>
+    simp only [gt_iff_lt, decide_eq_false_iff_not, Int.not_lt]
+    omega
+
+/-- The unit as `publish_message` sees it: the acting user has already been added to the contributors. -/
+def unitAfter (e : EngineSt) (c : Contributor) : ProcUnit :=
+  { e with contributors := e.contributors ++ [c] }.toUnit
+
+/-- Exact characterisation of who is notified when user `c` acts on engine `e`: nobody unless `c` is a new
+    contributor with an id, a run is active and publishing is configured; then exactly the existing subscriptions of
+    the users entitled to NEW_CONTRIBUTOR notifications about the unit — other than `c` themselves. -/
+theorem contribute_notifies_iff (nc : Nat) (db : DB) (e : EngineSt) (c : Contributor) (env : Env) (s : Sub) :
+    s ∈ (contribute nc db e c env).2 ↔
+      c ∉ e.contributors ∧ e.hasRun = true ∧ env.configured = true ∧
+      ∃ uid, c.id = some uid ∧ s ∈ db.subs ∧ Entitled db nc (unitAfter e c) s.user ∧ s.user ≠ uid := by
+  unfold contribute
+  by_cases hc : e.contributors.contains c = true
+  · have hm : c ∈ e.contributors := by simpa using hc
+    simp [hm]
+  · have hm : c ∉ e.contributors := by simpa using hc
+    simp only [hc, Bool.false_eq_true, ↓reduceIte, hm, not_false_eq_true, true_and]
+    unfold newContributorNotification
+    cases hid : c.id with
+    | none => simp
+    | some uid =>
+      by_cases hr : e.hasRun = true
+      · simp only [hr, Bool.not_true, Bool.false_eq_true, ↓reduceIte, true_and, Option.some.injEq, exists_eq_left']
+        rw [notified_iff]
+        rw [fresh_not_stale _ rfl]
+        simp only [true_and, Option.some.injEq, unitAfter]
+        constructor
+        · rintro ⟨h1, h2, h3, h4⟩
+          exact ⟨h1, h2, h3, fun heq => h4 heq.symm⟩
+        · rintro ⟨h1, h2, h3, h4⟩
+          exact ⟨h1, h2, h3, fun heq => h4 heq.symm⟩
+      · have hr' : e.hasRun = false := by simpa using hr
+        simp [hr']
+
+/-- Sentence 3, end to end: whatever the database, the engine and the request, the acting user is never notified
+    about their own contribution. -/
+theorem acting_user_never_notified (nc : Nat) (db : DB) (e : EngineSt) (c : Contributor) (env : Env) :
+    ∀ s ∈ (contribute nc db e c env).2, c.id ≠ some s.user := by
+  intro s hs heq
+  obtain ⟨_, _, _, uid, hid, _, _, hne⟩ := (contribute_notifies_iff nc db e c env s).1 hs
+  rw [hid] at heq
+  exact hne (Option.some.inj heq).symm
+
+/-- …and sentence 1 holds for it too: only existing subscriptions of entitled users. -/
+theorem contribute_only_entitled (nc : Nat) (db : DB) (e : EngineSt) (c : Contributor) (env : Env) :
+    ∀ s ∈ (contribute nc db e c env).2, s ∈ db.subs ∧ Entitled db nc (unitAfter e c) s.user := by
+  intro s hs
+  obtain ⟨_, _, _, uid, _, h1, h2, _⟩ := (contribute_notifies_iff nc db e c env s).1 hs
+  exact ⟨h1, h2⟩
+
+/-- The contributor is recorded, whether or not anything was published. -/
+theorem contribute_records (nc : Nat) (db : DB) (e : EngineSt) (c : Contributor) (env : Env) :
+    c ∈ (contribute nc db e c env).1.contributors := by
+  unfold contribute
+  by_cases hc : e.contributors.contains c = true
+  · simp only [hc, ↓reduceIte]; simpa using hc
+  · have hm : c ∉ e.contributors := by simpa using hc
+    simp [hm]
+
 /-! Non-vacuity: users 1–4; unit 7 requires role 1; user 3 contributed to its run.
     user 1: access scope, has role 1 → notified.  user 2: access scope, role 2 only → no access.
     user 3: contributed scope → notified for run topics, never for the new-contributor notification about them.
@@ -127,14 +203,22 @@ private def db : DB := run [
   .sub 1, .sub 2, .sub 3, .sub 4, .sub 1, .pref ⟨4, [1], .specific, [0], [8]⟩, .sub 4, .del 4]
 private def unit7 : ProcUnit := ⟨7, [1], [3]⟩
 
-example : publish db ⟨0, unit7, none, true, some 1000000000000, 1000000000⟩ = [⟨1, 1⟩, ⟨3, 3⟩, ⟨5, 1⟩] := by
+example : publish 6 db ⟨0, unit7, none, true, some 1000000000000, 1000000000⟩ = [⟨1, 1⟩, ⟨3, 3⟩, ⟨5, 1⟩] := by
   decide +kernel
-example : publish db ⟨6, unit7, some 3, true, none, 1000000000⟩ = [⟨1, 1⟩, ⟨5, 1⟩] := by decide +kernel
-example : publish db ⟨0, ⟨7, [], []⟩, none, true, none, 0⟩ = [⟨1, 1⟩, ⟨2, 2⟩, ⟨5, 1⟩] := by decide +kernel
-example : publish db ⟨0, unit7, none, true, some 1, 1000000000⟩ = [] := by decide +kernel   -- stale
+example : publish 6 db ⟨6, unit7, some 3, true, none, 1000000000⟩ = [⟨1, 1⟩, ⟨5, 1⟩] := by decide +kernel
+example : publish 6 db ⟨0, ⟨7, [], []⟩, none, true, none, 0⟩ = [⟨1, 1⟩, ⟨2, 2⟩, ⟨5, 1⟩] := by decide +kernel
+example : publish 6 db ⟨0, unit7, none, true, some 1, 1000000000⟩ = [] := by decide +kernel   -- stale
 example : Entitled db 0 unit7 3 :=
   ⟨⟨3, [1, 2], .contributed, [0, 6], []⟩, by decide +kernel, rfl, by decide, Or.inr ⟨1, by decide, by decide⟩,
    by unfold ScopeSelects; decide⟩
+/-- user 1 (access scope, selected NEW_CONTRIBUTOR = 6) acts on unit 7 during a run: user 1 is not notified; user 3
+    (contributed scope) is not a contributor of this run yet, so nobody is.  When user 3 then acts, user 1's two rows are
+    notified and user 3's is not. -/
+example : (contribute 6 db ⟨7, [1], [], true⟩ ⟨some 1, 11⟩ ⟨true, 1000⟩).2 = [] := by decide +kernel
+example : (contribute 6 db ⟨7, [1], [⟨some 1, 11⟩], true⟩ ⟨some 3, 13⟩ ⟨true, 1000⟩).2 = [⟨1, 1⟩, ⟨5, 1⟩] := by
+  decide +kernel
+example : (contribute 6 db ⟨7, [1], [⟨some 3, 13⟩], true⟩ ⟨some 1, 11⟩ ⟨true, 1000⟩).2 = [⟨3, 3⟩] := by decide +kernel
+example : (contribute 6 db ⟨7, [1], [⟨some 3, 13⟩], false⟩ ⟨some 1, 11⟩ ⟨true, 1000⟩).2 = [] := by decide +kernel  -- no run
 end examples
 
 end OPM.C33
